@@ -69,8 +69,9 @@ class Mismatch(Exception):
 
 
 class Ref:
-    def __init__(self, shape, log, rc, prog):
+    def __init__(self, shape, log, rc, prog, null=frozenset()):
         self.shape, self.log, self.rc, self.prog = shape, log, rc, prog
+        self.null = null          # handler members that are NULL: no callback, as if it had answered CONTINUE
         self.i = 0
 
     def resp(self, idx):
@@ -80,6 +81,8 @@ class Ref:
         return self.log[self.i] if self.i < len(self.log) else None
 
     def take(self, what):
+        if what in self.null:
+            return None, CONT
         e = self.peek()
         if e is None:
             raise Mismatch('log ends where %s was expected (callback #%d)' % (what, self.i))
@@ -101,14 +104,14 @@ class Ref:
 
     def run(self):
         e, r = self.take('cif_start')
-        if e[0] != 'cif_start':
+        if e is not None and e[0] != 'cif_start':
             raise Mismatch('first callback is %r' % (e,))
         out = 'cont'
         if r == CONT:
             out = self.children(self.shape, 'block_start', self.container, 'blocks')
             if out == 'cont':
                 e, r2 = self.take('cif_end')
-                if e[0] != 'cif_end':
+                if e is not None and e[0] != 'cif_end':
                     raise Mismatch('expected cif_end after all blocks, got %r' % (e,))
                 out = self.classify(r2)
             elif out == 'skips':
@@ -162,6 +165,8 @@ class Ref:
 
     def optional_end(self, end_ev, ident):
         """after a skip the matching end callback may or may not be delivered"""
+        if end_ev in self.null:
+            return None
         e = self.peek()
         if e is not None and e[0] == end_ev and ident(e):
             e, r = self.take(end_ev)
@@ -191,7 +196,7 @@ class Ref:
         if res != 'cont':
             return res
         e, r = self.take(eev)
-        if e[0] != eev or not ident(e):
+        if e is not None and (e[0] != eev or not ident(e)):
             raise Mismatch('expected %s of %r, got %r' % (eev, c['code'], e[:2]))
         return self.classify(r)
 
@@ -212,7 +217,7 @@ class Ref:
         if res != 'cont':
             return res
         e, r = self.take('loop_end')
-        if e[0] != 'loop_end' or not ident(e):
+        if e is not None and (e[0] != 'loop_end' or not ident(e)):
             raise Mismatch('expected loop_end of %r, got %r' % (l['names'], e[:2]))
         return self.classify(r)
 
@@ -225,13 +230,15 @@ class Ref:
             return base if o in (None, 'cont') else o
         if r != CONT:
             return self.classify(r)
-        res = self.children(list(p['items']), 'item', self.item, 'items')
+        res = 'cont' if 'item' in self.null else self.children(list(p['items']), 'item', self.item, 'items')
         if res == 'skips':
             o = self.optional_end('packet_end', ident)
             return 'cont' if o is None else o
         if res != 'cont':
             return res
         e, r = self.take('packet_end')
+        if e is None:
+            return self.classify(r)
         if e[0] != 'packet_end':
             raise Mismatch('expected packet_end, got %r' % (e[:2],))
         got = sorted((norm(n), canon_value(v)) for n, v in e[1])
@@ -244,7 +251,11 @@ class Ref:
         return self.classify(r)
 
 
-def check_walk(shape, ans, prog):
+NULL_MASKS = {1: ('cif_start',), 2: ('cif_end',), 8: ('block_end',), 32: ('frame_end',), 128: ('loop_end',), 512: ('packet_end',), 1024: ('item',),
+              1707: ('cif_start', 'cif_end', 'block_end', 'frame_end', 'loop_end', 'packet_end', 'item'), 170: ('cif_end', 'block_end', 'frame_end', 'loop_end')}
+
+
+def check_walk(shape, ans, prog, null=frozenset()):
     if not isinstance(ans, dict):
         return 'bad answer %r' % (ans,)
     if ans.get('autocommit') != 1:
@@ -254,7 +265,7 @@ def check_walk(shape, ans, prog):
     if '<rc=' in json.dumps(ans['log']):
         return 'a query on a handle passed to a callback failed: %s' % json.dumps(ans['log'])[:300]
     try:
-        Ref(shape, ans['log'], ans['rc'], prog).run()
+        Ref(shape, ans['log'], ans['rc'], prog, null).run()
     except Mismatch as m:
         return str(m)
     return None
@@ -286,6 +297,28 @@ def work(chunk, cfg, bound):
             n_exec += 1
             if err:
                 out.append((name, {}, err, base.get('ncalls', 0)))
+        # handler sets with NULL members (end handlers, cif_start, item): the empty program and every single deviation (thorough: pairs)
+        if firsts and firsts[0] == 0:
+            for mask, members in sorted(NULL_MASKS.items()):
+                null = frozenset(members)
+                try:
+                    b0 = ex.run(['walk C0 null=%d' % mask])[0]
+                    progs = [{}] + [{k: r} for k in range(b0.get('ncalls', 0)) for r in ALTS]
+                    if bound >= 3:
+                        progs += [{k: r, k2: r2} for k in range(b0.get('ncalls', 0)) for r in (SKIPC, SKIPS) for k2 in range(k + 1, b0.get('ncalls', 0)) for r2 in (SKIPC, SKIPS, END, 2)]
+                    answers = []
+                    for c0 in range(0, len(progs), 1500):
+                        answers += ex.run(['walk C0 null=%d prog=%s' % (mask, progstr(p)) for p in progs[c0:c0 + 1500]], timeout=600)
+                except Crash as c:
+                    out.append((name, {'null': mask}, 'executor crashed with NULL handler members %r: %s %s' % (members, c, c.stderr[-1500:]), 0))
+                    ex = worker_exec(cfg)
+                    ex.run(shape_script(shape))
+                    continue
+                for p, a in zip(progs, answers):
+                    n_exec += 1
+                    err = check_walk(shape, a, p, null)
+                    if err:
+                        out.append((name, dict(p, null=mask), 'with NULL handler members %s: %s' % ('/'.join(members), err), a.get('ncalls', 0) if isinstance(a, dict) else 0))
         depth = 1
         while level and depth <= bound:
             try:
@@ -350,14 +383,15 @@ def main():
                 ps = pershape.setdefault(name, {'walks': 0, 'callbacks_all_continue': base})
                 ps['walks'] += n
                 continue
-            first = min(prog) if prog else -1
+            mask = prog.pop('null', None) if isinstance(prog, dict) else None
+            wcmd = 'walk C0 %sprog=%s' % ('null=%d ' % mask if mask else '', progstr(prog))
             rep.violation({'shape': name, 'kind': err.split(':')[0][:60] if 'expected' not in err else 'log mismatch'},
-                          {'shape': name, 'program': progstr(prog), 'error': err, 'script': shape_script(SHAPES[name]) + ['walk C0 prog=%s' % progstr(prog)]})
+                          {'shape': name, 'program': progstr(prog), 'null_handler_mask': mask, 'error': err, 'script': shape_script(SHAPES[name]) + [wcmd]})
     samples = [{'shape': 'nested-frame', 'program': {3: SKIPS, 7: END}}, {'shape': 'frames', 'program': {1: SKIPC}}]
     return rep.finish({'states': execs, 'transitions': sum(sizes.values()), 'traces_validated_against_impl': execs,
                        'evaluations': execs, 'distinct_nontrivial': distinct,
                        'samples': samples, 'deviation_bound': bound, 'shapes': pershape, 'alternatives': ALTS, 'build': cfg, 'exhaustive': True,
-                       'explanation': 'states = handler programs executed (every assignment of <=bound non-CONTINUE answers to callback invocations, per shape); each is one cif_walk on the real library whose full callback log and return value are checked by the reference walker; distinct_nontrivial = distinct callback logs'},
+                       'explanation': 'states = handler programs executed (every assignment of <=bound non-CONTINUE answers to callback invocations, per shape; plus, for 9 handler sets with NULL members - each end handler, cif_start, item, and combinations - the empty program and every single deviation, thorough: pairs); each is one cif_walk on the real library whose full callback log and return value are checked by the reference walker; distinct_nontrivial = distinct callback logs'},
                       ['sibling order is unspecified (elements matched by identity)', 'after a SKIP answer the matching/parent end callback may or may not be delivered (DESIGN.md Appendix C)'])
 
 
